@@ -22,12 +22,13 @@ EXTENDS ClientLib, SequencesExt
 
 Lines == ndJsonDeserialize("trace.ndjson")
 
-VARIABLES i,      \* next line
+VARIABLES alts,   \* specification states compatible with the trace so far
+          i,      \* next line
           mode,   \* "run" | "skip" for the current trace
           viol,   \* sequence of [tr, i, sig]
           stat    \* [lines, traces, judged, soft, cov]
 
-tvars == <<s, obs, ok, hist, i, mode, viol, stat>>
+tvars == <<s, alts, obs, ok, hist, i, mode, viol, stat>>
 
 ---------------------------------------------------------------------------
 CfgOf(c) ==
@@ -98,7 +99,14 @@ AdvCands(st, n) ==
 
 Cands(st, l) ==
     CASE l.ev.t = "Api" -> {[r |-> DoApi([st EXCEPT !.ncall = @ + 1], ApiOf(l.ev)), missed |-> NoMissed]}
-      [] l.ev.t = "G"   -> {[r |-> DoGw(st, GwOf(l.ev.p)), missed |-> NoMissed]}
+      [] l.ev.t = "G"   ->
+           {[r |-> DoGw(st, GwOf(l.ev.p)), missed |-> NoMissed]}
+           \cup \* the code restarts the sleep period on a duplicated DISCONNECT reply; both are accepted
+                \* here, the bound of the Sleep call (C28) is not extended by it
+              (IF st.alive /\ l.ev.p.t = "DISCONNECT" /\ "DISCONNECT" \in DOMAIN st.ty
+                  /\ st.ty["DISCONNECT"].kind = "sleep" /\ st.ty["DISCONNECT"].phase = "asleep"
+               THEN {[r |-> Res([st EXCEPT !.ty["DISCONNECT"].due = st.ty["DISCONNECT"].dur], <<>>, {}), missed |-> NoMissed]}
+               ELSE {})
       [] l.ev.t = "GRaw" -> {[r |-> DoGw(st, [GwOf(l.ev.p) EXCEPT !.t = "JUNK"]), missed |-> NoMissed]}
       [] l.ev.t = "Adv" -> AdvCands(st, l.ev.n)
       [] OTHER          -> {[r |-> Res(st, <<>>, {}), missed |-> NoMissed]}
@@ -120,7 +128,8 @@ JudgeFull(pre, l, cand) ==
         isPingApi == l.ev.t = "Api" /\ l.ev.api = "Ping"
         \* ---- datagrams
         sigOut ==
-          {"C23/malformed/" \o l.out[k].t : k \in {x \in DOMAIN l.out : ~l.out[x].wf \/ l.out[x].t \notin ClientTypes}}
+          {"C23/malformed/" \o (IF l.out[k].t = "JUNK" /\ l.ev.t = "G" /\ l.ev.p.t = "WILLMSGREQ" THEN "WILLMSG-empty" ELSE l.out[k].t) :
+              k \in {x \in DOMAIN l.out : ~l.out[x].wf \/ l.out[x].t \notin ClientTypes}}
           \cup
           (IF ~pre.alive
            THEN {"C33/keepalive-ping-after-termination" : e \in {x \in extra : x.t = "PINGREQ" /\ ~x.hascid /\ ~isPingApi}}
@@ -154,6 +163,7 @@ JudgeFull(pre, l, cand) ==
               \/ x.t \in {"PUBLISH", "SUBSCRIBE", "REGISTER", "UNSUBSCRIBE", "PUBREL"} /\ l.ev.t = "Adv"
               \/ x.t = "PUBCOMP" /\ l.ev.t = "G"
               \/ x.t = "PUBREC" /\ l.ev.t = "G" /\ x \in missing
+              \/ x.t \in {"WILLMSG", "JUNK"} /\ sigOut # {}
               \/ x.t = "REGACK" /\ sigOut # {}
               \/ x.t = "PINGREQ" /\ sigOut # {}
               \/ x.t \in {"PUBLISH", "SUBSCRIBE"} /\ sigOut # {}}
@@ -187,6 +197,9 @@ JudgeFull(pre, l, cand) ==
               x \in {y \in absent : y.err = "nil" /\ pre.kaGhost}}
           \cup {"C17/ack-ignored/" \o ApiOfCall(pre, l, x.call).api :
               x \in {y \in absent : y.err = "nil" /\ isPubQ(y.call) /\ ~pre.kaGhost}}
+          \cup {"C28/call-overdue/" \o pre.calls[x.call].api :
+              x \in {y \in obsR : y.call \in DOMAIN pre.calls
+                                  /\ pre.calls[y.call].dl - (IF l.ev.t = "Adv" THEN l.ev.n ELSE 0) < 0}}
           \cup {"C28/call-overdue/" \o post.calls[c].api : c \in {x \in DOMAIN post.calls : post.calls[x].dl < 0 /\ x \notin {y.call : y \in obsR}}}
           \cup {"C28/call-overdue/" \o ApiOfCall(pre, l, x.call).api : x \in {y \in absent : ApiOfCall(pre, l, y.call).dl <= (IF l.ev.t = "Adv" THEN l.ev.n ELSE 0)}}
         sigRetGap == IF (unexp \cup absent) # {} /\ sigRet = {}
@@ -246,40 +259,50 @@ CovOf(pre, l) ==
       [] OTHER -> l.ev.t
 
 TInit == /\ s = InitState(Cfg0)
+         /\ alts = {InitState(Cfg0)}
          /\ obs = Obs0 /\ ok = "ok" /\ hist = <<>>
          /\ i = 1 /\ mode = "skip"
          /\ viol = <<>>
          /\ stat = [lines |-> 0, traces |-> 0, judged |-> 0, soft |-> 0, cov |-> {}, softl |-> <<>>]
 
-Best(cs, pre, l) ==
-    \* a candidate without any finding if there is one, else any (deterministic choice)
-    IF Cardinality(cs) = 1 THEN CHOOSE c \in cs : TRUE
-    ELSE IF \E c \in cs : Judge(pre, l, c) = {} THEN CHOOSE c \in cs : Judge(pre, l, c) = {}
-    ELSE CHOOSE c \in cs : TRUE
+(* The specification leaves some choices open that a single line does not   *)
+(* reveal (firing order of simultaneous timers, restart of the sleep period *)
+(* by a duplicated DISCONNECT).  `alts` is the set of specification states   *)
+(* that agree with everything observed so far; a line is accepted if some    *)
+(* state of `alts` has a candidate step without findings.  `s` is one        *)
+(* representative.                                                          *)
+Pairs(l) == UNION {{[pre |-> x, c |-> c] : c \in Cands(x, l)} : x \in alts}
 
 TNext ==
     /\ i <= Len(Lines)
     /\ LET l == Lines[i]
        IN IF l.ev.t = "Reset"
           THEN /\ s' = InitState(CfgOf2(l.ev.cfg))
+               /\ alts' = {InitState(CfgOf2(l.ev.cfg))}
                /\ mode' = "run"
                /\ viol' = viol
                /\ stat' = [stat EXCEPT !.lines = @ + 1, !.traces = @ + 1]
-          ELSE IF mode = "skip" \/ l.ev.t = "Skip"
-          THEN /\ UNCHANGED <<s, mode, viol>>
+          ELSE IF mode = "skip" \/ l.ev.t \in {"Skip", "Release", "Race"}
+          THEN /\ UNCHANGED <<s, alts, viol>>
+               /\ mode' = IF l.ev.t \in {"Release", "Race"} THEN "skip" ELSE mode  \* gated schedules are not judged
                /\ stat' = [stat EXCEPT !.lines = @ + 1]
-          ELSE LET cand == Best(Cands(s, l), s, l)
-                   sigs == Judge(s, l, cand)
-                   post == After(s, cand, l)
-               IN /\ s' = post
+          ELSE LET ps   == Pairs(l)
+                   good == {pc \in ps : Judge(pc.pre, l, pc.c) = {}}
+                   one  == IF good # {} THEN CHOOSE pc \in good : TRUE
+                           ELSE IF \E pc \in ps : pc.pre = s THEN CHOOSE pc \in ps : pc.pre = s
+                           ELSE CHOOSE pc \in ps : TRUE
+                   sigs == IF good # {} THEN {} ELSE Judge(one.pre, l, one.c)
+                   nxt  == IF good # {} THEN {After(pc.pre, pc.c, l) : pc \in good} ELSE {After(one.pre, one.c, l)}
+               IN /\ alts' = nxt
+                  /\ s' = After(one.pre, one.c, l)
                   /\ mode' = IF sigs = {} THEN "run" ELSE "skip"
                   /\ viol' = IF sigs = {} THEN viol
                              ELSE viol \o SetToSeq({[tr |-> l.tr, i |-> l.i, sig |-> x] : x \in sigs})
                   /\ stat' = [stat EXCEPT !.lines = @ + 1, !.judged = @ + 1,
-                                          !.soft = @ + (IF Soft(cand.r.s, l) # {} /\ sigs = {} THEN 1 ELSE 0),
-                                          !.softl = IF Soft(cand.r.s, l) # {} /\ sigs = {} /\ Len(@) < 20
-                                                    THEN Append(@, [tr |-> l.tr, i |-> l.i, what |-> SetToSeq(Soft(cand.r.s, l))]) ELSE @,
-                                          !.cov = @ \cup {CovOf(s, l)}]
+                                          !.soft = @ + (IF Soft(one.c.r.s, l) # {} /\ sigs = {} THEN 1 ELSE 0),
+                                          !.softl = IF Soft(one.c.r.s, l) # {} /\ sigs = {} /\ Len(@) < 20
+                                                    THEN Append(@, [tr |-> l.tr, i |-> l.i, what |-> SetToSeq(Soft(one.c.r.s, l))]) ELSE @,
+                                          !.cov = @ \cup {CovOf(one.pre, l)}]
     /\ i' = i + 1
     /\ UNCHANGED <<obs, ok, hist>>
     /\ TLCSet(1, [viol |-> viol', lines |-> stat'.lines, traces |-> stat'.traces, judged |-> stat'.judged,
